@@ -36,6 +36,7 @@ pub struct PasswordModify<'a> {
 /// Password Modify response.
 ///
 /// If the server has generated a new password, it must send its value in the response.
+/// Otherwise, `gen_pass` is empty.
 #[derive(Clone, Debug)]
 pub struct PasswordModifyResp {
     pub gen_pass: String,
@@ -94,15 +95,17 @@ impl ExopParser for PasswordModifyResp {
             .expect_constructed()
             .expect("password modify sequence")
             .into_iter();
-        let gen_pass = tags
-            .next()
-            .expect("element")
-            .match_class(TagClass::Context)
-            .and_then(|t| t.match_id(0))
-            .and_then(|t| t.expect_primitive())
-            .expect("generated password")
-            .as_slice()
-            .to_owned();
+        // genPasswd is OPTIONAL: it's absent if the request supplied the new password.
+        let gen_pass = match tags.next() {
+            Some(tag) => tag
+                .match_class(TagClass::Context)
+                .and_then(|t| t.match_id(0))
+                .and_then(|t| t.expect_primitive())
+                .expect("generated password")
+                .as_slice()
+                .to_owned(),
+            None => vec![],
+        };
         let gen_pass = String::from_utf8(gen_pass).expect("generated password not UTF-8");
         PasswordModifyResp { gen_pass }
     }
